@@ -27,7 +27,7 @@ def run(ctx):
         jobs += j
         for k, v in st.items(): stats[k] = stats.get(k, 0) + v
     ctx.stats['generator_distribution'] = stats
-    suites.differential(ctx, jobs, None, label='sequential')
+    suites.differential(ctx, jobs, None, label='sequential', must_compile=True)
     ctx.samples.append(dict(generated_program=jobs[-1][1][:1500], args=jobs[-1][2], w=jobs[-1][3]))
 
 
